@@ -343,7 +343,7 @@ def _random_chunk(args):
         if var.dtype.name in ('float32', 'complex64') and not L.f32_ok(case, D, nentries(desc, var),
                                                                        bound=L.magnitude_bound(case)):
             var = var.with_(dtype=DTYPES[fld][0])
-        if var.dtype.name == 'int64' and not int_ok(case):
+        if var.dtype.name == 'int64':       # integer spaces: deterministic enumeration only (seed-robust families)
             var = var.with_(dtype=DTYPES[fld][0])
         try:
             ev, info = execute(case, var, D)
@@ -373,7 +373,14 @@ def run(ctx):
         'another exponent only norm/dist are claimed (documented formula sum_k w_k ||x_k||^p)',
         'triangle inequality for p = 3 on observed values is a quantised relation (2 quanta slack); '
         'float32/complex64 concretisations are used only where magnitudes x lattice denominator <= 2^14',
-        'custom inner/norm/dist: fixed catalogue inner:iw, norm:l1x2, dist:l1 on tensor spaces']
+        'custom inner/norm/dist: fixed catalogue inner:iw, norm:l1x2, dist:l1 on tensor spaces',
+        'concretisation axes beyond dtype/layout/size: weighting passed as value / Weighting instance / list, exponent as '
+        'int / float, spaces built directly / via astype / via real_space, complex_space, element-level vs space-level '
+        'calls and the transpose functional x.T(y) = <y, x>, rn / cn / tensor_space spellings, sizes 1, ~100, <= 50000, '
+        '> 50000; zero-size and one-entry spaces are part of the universe (||0|| = 0 on the zero-size space)',
+        'integer dtype is offered where entries, scalar and array weights are integers (fractional data / true division '
+        'in integer spaces follow NumPy casting and are outside the claim); integer spaces are enumerated '
+        'deterministically only (not by the random driver)']
     work = ctx.work
     nvs = NV_QUICK if quick else NV_THOROUGH
     big = '0' if quick else '1'
